@@ -18,6 +18,7 @@ func init() {
 			{"RETRY-LOOP", ruleRetryLoop},
 			{"USE-AFTER-ERR", func(c *eng.Ctx) { ruleUseAfterErrNet(c) }},
 			{"PUSH-ON-UPDATE", rulePushOnUpdate},
+			{"RECEIVE-MERGES", ruleReceiveMerges},
 			{"SYNC-BEFORE-MERGE", ruleSyncBeforeMerge},
 			{"LOADERS", ruleLoaders},
 			{"LOCK-ESCAPE", ruleLockEscape},
@@ -345,5 +346,80 @@ func rulePushOnUpdate(c *eng.Ctx) {
 	if ml := c.Anchor(rule, "net.(*Peer).handleMessageLoop"); ml != nil {
 		ok := eng.ContainsCallTo(ml.Pkg.TypesInfo, ml.Decl.Body, true, "net.(*Peer).handleLog") != nil
 		c.Check(ok, rule, "handleMessageLoop:calls-handleLog", ml.Decl.Pos(), "update events reach handleLog", "the peer's message loop no longer calls handleLog")
+	}
+}
+
+// ruleReceiveMerges: a received push that is not rejected for access reasons always ends in a merge
+// event; and the retry record leaves the 'retrying' state whenever its next retry is scheduled.
+func ruleReceiveMerges(c *eng.Ctx) {
+	const rule = "RECEIVE-MERGES"
+	if fi := c.Anchor(rule, "net.(*server).processPushlog"); fi != nil {
+		info := fi.Pkg.TypesInfo
+		flow := eng.NewFlow(info, fi.Decl.Body)
+		mergeName := lookupObj(c.P, "event", "MergeName")
+		var publish ast.Node
+		for _, cs := range eng.Calls(info, fi.Decl.Body) {
+			if strings.HasSuffix(cs.Name, ".Publish") && publishesUpdate(info, fi.Decl, cs.Call, mergeName) {
+				publish = cs.Call
+			}
+		}
+		if publish == nil {
+			c.Bad(rule, "processPushlog:publishes-merge", fi.Decl.Pos(), "a received push never raises a merge event")
+		} else {
+			var access types.Object
+			ast.Inspect(fi.Decl.Body, func(m ast.Node) bool {
+				if as, ok := m.(*ast.AssignStmt); ok && len(as.Rhs) == 1 && len(as.Lhs) == 2 {
+					if call, ok := as.Rhs[0].(*ast.CallExpr); ok && eng.CalleeName(info, call) == "net.(*server).trySelfHasAccess" {
+						access = eng.ObjOf(info, as.Lhs[0])
+					}
+				}
+				return true
+			})
+			n := 0
+			for _, r := range successReturnsP(c.P, info, fi.Decl) {
+				n++
+				ppt, _ := flow.PointOf(r)
+				un := flow.ReachesWithout(ppt, func(nd ast.Node) bool { return nd.Pos() <= publish.Pos() && publish.End() <= nd.End() }, func(cond ast.Expr, taken bool) bool {
+					// the access-denied edge is the one legitimate silent acknowledgement
+					if access != nil {
+						t := eng.EvalBool(info, cond, func(e ast.Expr) eng.Tri {
+							if eng.ObjOf(info, e) == access {
+								return eng.True
+							}
+							return eng.Unknown
+						})
+						switch t {
+						case eng.True:
+							return taken
+						case eng.False:
+							return !taken
+						}
+					}
+					return true
+				})
+				c.Check(!un, rule, fmt.Sprintf("processPushlog:success-return#%d:merge-raised", n), r.Pos(), "an acknowledged push was synced and handed to the merge",
+					"processPushlog acknowledges a push (nil error) on a path that raised no merge event although access was not denied: the sender clears its retry state while the commit is never merged here")
+			}
+		}
+	}
+	if fi := c.Anchor(rule, "net.setReplicatorNextRetry"); fi != nil {
+		info := fi.Pkg.TypesInfo
+		flow := eng.NewFlow(info, fi.Decl.Body)
+		for _, cs := range eng.Calls(info, fi.Decl.Body) {
+			if cs.Name != "github.com/sourcenetwork/corekv.(Writer).Set" {
+				continue
+			}
+			pt, _ := flow.PointOf(cs.Call)
+			un := flow.ReachesWithout(pt, func(nd ast.Node) bool {
+				as, ok := nd.(*ast.AssignStmt)
+				if !ok || len(as.Lhs) != 1 || !isFieldNamed(info, as.Lhs[0], "Retrying") {
+					return false
+				}
+				tv, ok := info.Types[as.Rhs[0]]
+				return ok && tv.Value != nil && tv.Value.ExactString() == "false"
+			}, happyEdge(info))
+			c.Check(!un, rule, "setReplicatorNextRetry:clears-retrying-on-every-path", cs.Call.Pos(), "scheduling the next retry always leaves the 'retrying' state",
+				"setReplicatorNextRetry can persist the record with Retrying still true: retryReplicators skips such a record forever, so the peer is never pushed to again")
+		}
 	}
 }
